@@ -9,6 +9,17 @@ CLAIMED = {
     note="Trusted: pyvc engine and its Python encoding, z3/cvc5, structural record equality. Bounded only: order-independence of SymbolKindFinder on random programs; known finding D5 (non-unifiable kinds for one name) is excluded by fingerprint.",
     technique="contract-based deductive verification: ast->z3 VC generation from the real unify, lattice lemmas over its outcome function",
     ref="6/C14"),
+
+ "C10": dict(cat="proof",
+    text="The four verifier passes and verify_code are symbolically executed from analysis.py against contracts: each pass adds a message iff its defect exists (witness ghosts one way, quantified loop invariants the other), the cycle detector is proved sound (error branch unreachable under any height function) and complete (ghost finishing order is a height function), and verify_code, using only those contracts, returns normally iff the method is well-formed and otherwise raises CodeGenerationError with >= 1 message; an escaping KeyError is proved unreachable. All inputs, no bound.",
+    note="Not proved: termination of the cycle detector's loop (cardinality argument) - bounded stand-in with a step guard only. Assumes unique statement ids per phase, structural reading of statement attributes, engine + solvers. Bounded stand-in (labelled): exhaustive small DAGs + random tail on the real verify_code and its consumers.",
+    technique="contract-based deductive verification: ast->z3 VC generation from the real verifier passes, loop invariants with ghost witnesses, modular callee contracts",
+    ref="6/C10"),
+ "C04": dict(cat="proof",
+    text="ExecutionPhase.depends_on (sink set), ExecutionController.reset, update_plan with its recursive nested add_with_deps, and the dispatch loop __call__ are symbolically executed from language.py; the plan invariant (duplicate-free plan in position view, planned = set(plan), every dependency executed or earlier in the plan) is proved inductive, every dispatch/guard evaluation is proved to happen at most once per step, after the statement is marked visited and after all its dependencies; requested statements and their unvisited dependencies are proved to come before anything else planned; lemma A-SINK (step proved by z3) gives that every statement of the phase is visited.",
+    note="Trusted: Rule IND for A-SINK, engine, solvers; target callbacks are arbitrary callees. Preconditions are verify_code's postcondition (C10). Bounded stand-in (labelled): scripted controller runs on small phases.",
+    technique="contract-based deductive verification: ast->z3 VC generation, position-view invariants, recursion by contract with decreases clause",
+    ref="6/C04"),
 }
 
 NOT_APPLICABLE = {
